@@ -280,8 +280,9 @@ func c16run(c *Ctx) {
 	}
 
 	// --- NewEntry / EntryAttribute
-	names := []string{"b", "a", "C", ""}
+	names := []string{"b", "a", "C", "", "c", "cn", "CN"}
 	vals := [][]string{nil, {}, {"x"}, {"x", "y"}, {"", "\x00"}}
+	entryVals := [][]string{nil, {"x", "y"}}
 	// all maps over subsets of names with each value list
 	for mask := 0; mask < 1<<len(names); mask++ {
 		var rec5 func(i int, m map[string][]string)
@@ -296,7 +297,7 @@ func c16run(c *Ctx) {
 				rec5(i+1, m)
 				return
 			}
-			for _, v := range vals {
+			for _, v := range entryVals {
 				m2 := map[string][]string{}
 				for k, x := range m {
 					m2[k] = x
@@ -387,7 +388,22 @@ func c16entry(c *Ctx, m map[string][]string) {
 	var e1, e2 *gldap.Entry
 	k := try(func() {
 		e1 = gldap.NewEntry("cn=x", m)
-		e2 = gldap.NewEntry("cn=x", m)
+		// Go randomises map iteration: repeat so that an order that depends on it shows
+		for i := 0; i < 12; i++ {
+			e2 = gldap.NewEntry("cn=x", m)
+			if len(e2.Attributes) != len(e1.Attributes) {
+				break
+			}
+			same := true
+			for j := range e1.Attributes {
+				if e1.Attributes[j].Name != e2.Attributes[j].Name {
+					same = false
+				}
+			}
+			if !same {
+				break
+			}
+		}
 	})
 	rep := c16rep{Fn: "NewEntry", Note: fmt.Sprintf("%q", m)}
 	if k != "" {
